@@ -97,12 +97,20 @@ where
             }
         }
 
+        // The rows of periodic images along each cell vector are separated by the height of the
+        // cell, so a potential with a cutoff needs as many shells as there are rows within range.
+        let min_height = f64::min(self.cell.a(), self.cell.b()) * self.cell.angle().sin();
+        let periodic_range = match self.shape.interaction_range() {
+            Some(range) => i64::max(3, (range / min_height).ceil() as i64),
+            None => 3,
+        };
+
         // Compare in periodic cells
         for shape1 in self.cartesian_positions().map(|p| self.shape.transform(&p)) {
             for position in self.relative_positions() {
                 for shape2 in self
                     .cell
-                    .periodic_images(position, 3, false)
+                    .periodic_images(position, periodic_range, false)
                     .map(|p| self.shape.transform(&p))
                 {
                     // Every pair with a periodic image is found from both of its ends, so each
